@@ -40,7 +40,8 @@ def _amount(rng):
 
 
 def _inline_comment(rng):
-    return rng.choice(['', '', '', ' ; note', '  ;x', ' ;'])
+    # incl. comments glued to the previous token and lines ending in blanks
+    return rng.choice(['', '', '', '', ' ; note', '  ;x', ' ;', ';glued', '   ', ' \t', ' ; note  '])
 
 
 def _meta_value(rng):
@@ -91,9 +92,9 @@ def _posting(rng, indent, nl, meta_indent):
     if r < 0.75:
         parts.append(rng.choice(['  ', ' ', '\t', '    ']) + _amount(rng))
         if rng.random() < 0.3:
-            parts.append(' ' + _cost(rng))
+            parts.append(rng.choice([' ', ' ', '']) + _cost(rng))       # '' : cost glued to the currency
         if rng.random() < 0.3:
-            parts.append(' ' + rng.choice(['@', '@@']) + rng.choice(['', ' ' + _amount(rng), ' ' + _num(rng), ' ' + rng.choice(CURRENCIES)]))
+            parts.append(rng.choice([' ', ' ', '']) + rng.choice(['@', '@@']) + rng.choice(['', ' ' + _amount(rng), ' ' + _num(rng), ' ' + rng.choice(CURRENCIES)]))
     elif r < 0.85:
         parts.append('  ' + rng.choice(CURRENCIES))
     line = ''.join(parts) + _inline_comment(rng) + nl
